@@ -177,6 +177,17 @@ func (s *ifs) iv0(t *Term) ival {
 		if a.ok {
 			return ival{-a.hi, -a.lo, true}
 		}
+	case OpBVMul:
+		for k := 0; k < 2; k++ {
+			c, x := t.Args[k], t.Args[1-k]
+			if c.IsConst() {
+				a := s.iv(x)
+				m := c.SInt()
+				if a.ok && m >= 0 && m <= 1<<31 && a.lo > -(1<<20) && a.hi < 1<<20 {
+					return ival{a.lo * m, a.hi * m, true}
+				}
+			}
+		}
 	case OpIte:
 		a, b := s.iv(t.Args[1]), s.iv(t.Args[2])
 		if a.ok && b.ok {
@@ -244,6 +255,78 @@ func (s *ifs) fi0(t *Term) fint {
 		}
 	}
 	return fint{}
+}
+
+// fnn: the FP64 term is finite and >= +0 (never NaN, never -0), with an upper bound.
+func (s *ifs) fnn(t *Term) (bool, float64) {
+	if t.Sort != FP64 {
+		return false, 0
+	}
+	switch t.Op {
+	case OpConst:
+		if t.F == t.F && !math.IsInf(t.F, 0) && t.F >= 0 && !math.Signbit(t.F) {
+			return true, t.F
+		}
+	case OpSBVToFP:
+		if t.Args[0].Sort.W == 64 {
+			if a := s.iv(t.Args[0]); a.ok && a.lo >= 0 {
+				return true, float64(a.hi)
+			}
+		}
+	case OpFPDiv:
+		if ok, ub := s.fnn(t.Args[0]); ok && t.Args[1].IsConst() && t.Args[1].F > 0 && !math.IsInf(t.Args[1].F, 0) {
+			return true, ub/t.Args[1].F*1.0000001 + 1e-300
+		}
+	case OpFPAdd:
+		ok1, u1 := s.fnn(t.Args[0])
+		ok2, u2 := s.fnn(t.Args[1])
+		if ok1 && ok2 && u1+u2 < 1e300 {
+			return true, (u1 + u2) * 1.0000001
+		}
+	case OpFPMul:
+		ok1, u1 := s.fnn(t.Args[0])
+		ok2, u2 := s.fnn(t.Args[1])
+		if ok1 && ok2 && u1 < 1e150 && u2 < 1e150 {
+			return true, u1 * u2 * 1.0000001
+		}
+	}
+	return false, 0
+}
+
+// fin: the FP64 term is finite (never NaN, never infinite), with a bound on its magnitude.
+func (s *ifs) fin(t *Term) (bool, float64) {
+	if t.Sort != FP64 {
+		return false, 0
+	}
+	switch t.Op {
+	case OpConst:
+		if t.F == t.F && !math.IsInf(t.F, 0) {
+			return true, math.Abs(t.F)
+		}
+	case OpSBVToFP, OpUBVToFP:
+		return true, 1.9e19
+	case OpFPDiv:
+		if ok, ub := s.fin(t.Args[0]); ok && t.Args[1].IsConst() && t.Args[1].F != 0 && !math.IsInf(t.Args[1].F, 0) && t.Args[1].F == t.Args[1].F {
+			if q := ub / math.Abs(t.Args[1].F); q < 1e300 {
+				return true, q*1.0000001 + 1e-300
+			}
+		}
+	case OpFPAdd, OpFPSub:
+		ok1, u1 := s.fin(t.Args[0])
+		ok2, u2 := s.fin(t.Args[1])
+		if ok1 && ok2 && u1+u2 < 1e300 {
+			return true, (u1 + u2) * 1.0000001
+		}
+	case OpFPNeg, OpFPAbs, OpFPRound:
+		return s.fin(t.Args[0])
+	case OpIte:
+		ok1, u1 := s.fin(t.Args[1])
+		ok2, u2 := s.fin(t.Args[2])
+		if ok1 && ok2 {
+			return true, math.Max(u1, u2)
+		}
+	}
+	return false, 0
 }
 
 // cmpConst decides an FP comparison of an integer-valued term against an arbitrary FP constant.
@@ -381,6 +464,24 @@ func (s *ifs) rw0(t *Term) *Term {
 	case OpFPAdd, OpFPSub, OpFPRound, OpFPNeg:
 		if f := s.fi(t); f.ok {
 			return SBVToFP(f.i, FP64)
+		}
+	case OpFPMul:
+		// (+0) * y = +0 for every finite y >= +0
+		for k := 0; k < 2; k++ {
+			z, y := t.Args[k], t.Args[1-k]
+			if f := s.fi(z); f.ok && ((f.lo == 0 && f.hi == 0) || (f.i.IsConst() && f.i.U == 0)) {
+				if ok, _ := s.fnn(s.rw(y)); ok {
+					return FPC(0)
+				}
+				if ok, _ := s.fnn(y); ok {
+					return FPC(0)
+				}
+				// finite y of unknown sign: (+0)*y is a zero carrying y's sign
+				if ok, _ := s.fin(y); ok {
+					ry := s.rw(y)
+					return Ite(FPPred(OpFPIsNeg, ry), FPC(math.Copysign(0, -1)), FPC(0))
+				}
+			}
 		}
 	case OpIte:
 		if t.Sort == FP64 {
